@@ -2,6 +2,7 @@
   C09 — Parallel block build is deterministic for any thread count and schedule.
 -/
 import CSD.Lemmas.Blocks
+import CSD.Generated.PoolOps
 
 namespace CSD.Props.C09
 open CSD CSD.Pool CSD.Blocks
@@ -35,6 +36,12 @@ theorem parts_equal_across_runs {α : Type} (build : List Str → α) (c : Nat) 
     (r2 : Reachable n₂ (List.range (cut c S).length) s₂) (d2 : s₂.prod = .done) :
     partsOf build (cut c S) s₁.ran = partsOf build (cut c S) s₂.ran := by
   rw [parts_schedule_independent build c S h1 r1 d1, parts_schedule_independent build c S h2 r2 d2]
+
+/-- The protocol the theorems are about is the one in the source now: the
+synchronisation skeleton of the pool and of the Blocks constructor (slot
+reservation and slot fill under `m`, completion wait, stop, join) extracted on
+this run equals the one the model was written against. -/
+theorem blocks_protocol_matches_source : CSD.Generated.poolOps = sourceShape := rfl
 
 example : cut 3 [[0x61], [0x62, 0x63], [0x64]] = [[[0x61], [0x62, 0x63]], [[0x64]]] := by decide
 
